@@ -108,6 +108,7 @@ type pathState struct {
 }
 
 type hashApp struct {
+	alg  string
 	name string
 	in   *smt.Term
 	app  *smt.Term
@@ -127,6 +128,12 @@ func (i *interpreter) assume(t *smt.Term) {
 	i.ps.pcSet[t.ID] = true
 	i.ps.pc = append(i.ps.pc, t)
 	i.solver.Assert(t)
+	if i.inSummary == 0 {
+		// facts of the path condition refine variable ranges (used to lower
+		// divisions by constants); not inside summaries, whose conditions are
+		// retracted again
+		i.cx.NoteAssumption(t)
+	}
 }
 
 // assumeLazy records t in the path condition without sending it to the
@@ -202,7 +209,7 @@ func (i *interpreter) decide(c *smt.Term) bool {
 	}
 	rt := i.solver.CheckWith(c)
 	if rt == smt.Unknown {
-		panic(pathAbort{OutUnknown, "solver unknown on branch condition: " + i.solverErr()})
+		panic(pathAbort{OutUnknown, "solver unknown on branch condition at " + i.where() + ": " + c.String() + " " + i.solverErr()})
 	}
 	if rt == smt.Unsat {
 		dc.trail = append(dc.trail, Decision{B: false, F: true})
@@ -211,7 +218,7 @@ func (i *interpreter) decide(c *smt.Term) bool {
 	}
 	rf := i.solver.CheckWith(nc)
 	if rf == smt.Unknown {
-		panic(pathAbort{OutUnknown, "solver unknown on branch condition: " + i.solverErr()})
+		panic(pathAbort{OutUnknown, "solver unknown on branch condition at " + i.where() + ": " + c.String() + " " + i.solverErr()})
 	}
 	if rf == smt.Unsat {
 		dc.trail = append(dc.trail, Decision{B: true, F: true})
